@@ -213,6 +213,22 @@ def parallax_shift_claim(mask_name, aberr, rotation=0.0):
     return claim
 
 
+def override_claim(kernel, mask_name, built, override):
+    """hyper-parameters passed as overrides to reconstruct() give the result of an object built with those values:
+    built / override = (rotation, aberrations); the override values include exact zeros"""
+    mask = _mask(MASKS[mask_name])
+
+    def claim(I):
+        with _patched(I):
+            dp1, x = _make(I, mask, aberr=built[1], rotation=built[0])
+            dp2, _ = _make(I, mask, aberr=override[1], rotation=override[0], stack=x)
+            kw = dict(parallax_flip_phase=False) if kernel == "prlx" else {}
+            a = _recon(dp1, kernel, override_rotation_angle=override[0], override_aberration_coefs=dict(override[1]), **kw).sum(dim=0)
+            b = _recon(dp2, kernel, **kw).sum(dim=0)
+            return [Rel("override_equals_built_with_the_same_hyperparameters", a, b, tol=TOL, ntol=1e-4)]
+    return claim
+
+
 def cases(tier):
     out = []
     L = dict(logic=None)
@@ -220,6 +236,10 @@ def cases(tier):
     out.append(("parallax_shifted[4px;defocus+astigmatism]", parallax_shift_claim("4px", {"C10": -60.0, "C12": 25.0, "phi12": 0.4}), L))
     out.append(("parallax_shifted[3px;defocus;rotation 0.3]", parallax_shift_claim("3px", {"C10": 80.0}, rotation=0.3), L))
     out.append(("parallax_shifted[5px;astigmatism;rotation 0.25]", parallax_shift_claim("5px", {"C12": 30.0, "phi12": -1.1}, rotation=0.25), L))
+    out.append(("override[prlx;4px;rotation 0.35 -> 0.0]", override_claim("prlx", "4px", (0.35, {"C10": 80.0, "C12": 20.0, "phi12": 0.4}),
+                                                                            (0.0, {"C10": 80.0, "C12": 20.0, "phi12": 0.4})), L))
+    out.append(("override[ssb;3px;rotation -0.5 -> 0.0;C10 60 -> 0.0]", override_claim("ssb", "3px", (-0.5, {"C10": 60.0}), (0.0, {"C10": 0.0, "C12": 15.0, "phi12": 0.3})), L))
+    out.append(("override[prlx;3px;rotation 0.0 -> 0.2]", override_claim("prlx", "3px", (0.0, {"C10": 50.0}), (0.2, {"C10": -40.0})), L))
     for k in KERNELS:
         out.append((f"batch[{k};5px]", batch_claim(k, "5px"), L))
         out.append((f"linear[{k};4px]", linear_claim(k, "4px"), L))
